@@ -1026,6 +1026,13 @@ def witness_cases():
     w2 = dict(kind="witness", modes=["F", "F"], t=["mul", gd, ["mul", f, g]], x=gd, y=["mul", f, g], z=["mul", g, f],
               states=[[0, 0], [0, 1], [1, 0], [1, 1]])
     ws = [w1, w2]
+    for m, l, r in nc.SIGN_WITNESSES:  # spins next to fermions in every branch of the fermionic sign rule
+        import itertools
+        sts = []
+        for conf in itertools.product((0, 1), repeat=sum(k in "SF" for k in m)):
+            it = iter(conf)
+            sts.append([next(it) if k in "SF" else 1 for k in m])
+        ws.append(dict(kind="witness", modes=m, t=["mul", l, r], x=l, y=r, z=r, states=sts[:16]))
     for m, t in nc.POWTERM_WITNESSES:  # integer powers of single-term forms with number-dependent coefficients
         sts = [[0], [1], [2], [3], [4]] if m == ["B"] else [[-3], [-1], [0], [1], [2]]
         ws.append(dict(kind="witness", modes=m, t=t, x=t[1], y=t[1], z=["op", 0, 1], states=sts))
